@@ -720,6 +720,26 @@ fn poll_source<S: SKind>(id: Cid, addr: usize, cx: &mut Context<'_>) -> Poll<Opt
         }
         (ph, mode)
     });
+    if role != Role::Upstream && !matches!(phase, SPhase::Pend(_)) {
+        // a merged source may use its waker in ANY poll, also in one that yields an item or ends ("at any moment
+        // before, during or after a poll"): the slot is then queued by the wake before the merge re-arms it
+        let (sw, act) = w(|x| {
+            let c = &x.children[id as usize];
+            (c.plan.wake_on_complete, c.plan.on_poll)
+        });
+        if sw {
+            w(|x| x.labels |= lb::SELF_WAKE_ON_COMPLETE);
+            if !matches!(phase, SPhase::End) {
+                stash_waker(id, cx.waker(), mode);
+            }
+            begin_invocation(slot, id, "self wake_by_ref (source, yielding)");
+            vt(|| cx.waker().wake_by_ref());
+            end_invocation();
+        }
+        if let Some(a) = act {
+            run_action(a);
+        }
+    }
     match phase {
         SPhase::Item(seq) => Poll::Ready(Some(S::item(id, seq))),
         SPhase::Err(seq) => match S::err(id, seq) {
